@@ -12,12 +12,16 @@ CFG = {'assumptions': ['iterator semantics: Next moves to the successor, in the 
              'hook:avl.rotateLR': 100,
              'hook:avl.rotateRL': 100,
              'hook:avl.rotateRR': 100,
-             'next-after-delete-of-current': 100},
+             'next-after-delete-of-current': 100,
+             'next-on-snapshot-iterator': 20000,
+             'op:safeIter': 1000,
+             'op:safeIterFrom': 2000},
  'rule': 'random histories (50-400 operations: Insert/Delete/Clone/Iterator/IteratorFrom/iterator Clone/Next/FindNode/FindNodeLE) over dense '
          "universes of 4-64 keys, sparse extreme keys and iterator-stress histories aimed at the iterator's current element, plus the exhaustive "
          'enumeration of all histories of length L over {ins k, del k, next} with 4 keys and one live iterator; after EVERY operation: return value, '
          'membership of every universe key, BST order, parent links, stored balance = height difference in {-1,0,1}, no reachable deleted node, full '
-         'ascending iteration, every live iterator at the model successor. non-trivial = history with >=1 structural mutation followed by >=1 read '
+         'ascending iteration, every live iterator at the model successor. snapshot-iterators: SafeIterator / SafeIteratorFrom are created, the tree is then '
+         'mutated around and ahead of their position (deletes, inserts, clones) and every Next must follow the set AS IT WAS at creation. non-trivial = history with >=1 structural mutation followed by >=1 read '
          '(Next/Find) (exhaustive groups count once per group of 2000 histories); distinct by universe+history hash'}
 
 META = {'design_ref': 'DESIGN.md section 3, C19',
